@@ -131,7 +131,7 @@ class LoopExpression(Expression):
         stop = None if limit is None else limit + start
 
         start_ = min(max(start, 0), length)
-        stop_ = min(stop or length, length)
+        stop_ = length if stop is None else min(max(stop, 0), length)
         length_ = max(stop_ - start_, 0)
 
         context.stopindex(key=offset_key, index=stop_)
